@@ -54,6 +54,7 @@ class Kernel:
         self.returns = []                # state snapshots at return statements / function end
         self.raises = []                 # (raise node, state snapshot)
         self.max_paths = None
+        self.exact_syms = set()          # symbols whose facts are exact (loop variables with their full range)
         self.content_in = {}             # local array name -> (lo, hi, reason): element bounds from a previous pass
         self.content_out = {}            # local array name -> list of (lo_ok, [hi candidates]) per store
         self.split_dnf = False           # split paths on and/or/!= conditions (small decision code only)
@@ -95,6 +96,8 @@ class Kernel:
                 st.facts.add_ge(s)
                 st.facts.add_le(s, 1)
                 st.env[n] = Int(s)
+            elif kind == 'shape':
+                st.env[n] = _ShapeOf(Arr(n + '_of', None, None))
             elif kind == 'arr':
                 st.env[n] = Arr(n, None, None)
             elif kind == 'optarr':
@@ -277,7 +280,16 @@ class Kernel:
         # array arithmetic keeps the (broadcast) shape of the array operand
         for x, y in ((a, b), (b, a)):
             if isinstance(x, Arr) and not isinstance(y, Arr):
-                return x.with_dims(x.dims) if x.dims is not None else Arr(fresh(x.ident + "'"), None)
+                tags = {}
+                if isinstance(y, Int) and isinstance(op, ast.Add) and 'content' in x.tags:
+                    lo_, hi_, why_ = x.tags['content']
+                    tags = dict(x.tags)
+                    tags['content'] = (lo_ + y.lin if lo_ is not None else None, hi_ + y.lin if hi_ is not None else None, why_)
+                if x.dims is not None:
+                    return x.with_dims(x.dims, tags=tags)
+                r_ = Arr(fresh(x.ident + "'"), None)
+                r_._lazy = x._lazy          # same (lazily named) sizes as the operand
+                return r_
         if isinstance(a, Arr) and isinstance(b, Arr):
             if a.dims is not None and b.dims is not None and len(a.dims) == len(b.dims):
                 return a.with_dims(a.dims)
@@ -379,6 +391,8 @@ class Kernel:
             if node.attr == 'ndim':
                 if v.dims is not None:
                     return Int(len(v.dims))
+                if self._rank_hint(v) is not None:
+                    return Int(self._rank_hint(v))
                 return Int(Lin.sym(f'{v.ident}.ndim'))
             if node.attr in ('real', 'imag'):
                 return v
@@ -405,7 +419,7 @@ class Kernel:
             if isinstance(k, Int) and k.lin.is_const() and -len(base.items) <= k.lin.c < len(base.items):
                 return base.items[int(k.lin.c)]
             return Opaque('tupidx')
-        if not isinstance(base, Arr):
+        if not isinstance(base, Arr) or any(isinstance(it, ast.Constant) and isinstance(it.value, str) for it in items):
             for it in items:
                 self._ev_index_item(it, st, quiet)
             return Opaque('sub')
@@ -580,9 +594,29 @@ class Kernel:
             return 'PROVEN', f'-{dim} <= {idx} < {dim}', None
         goal = (dim - idx - 1) if not up else (idx + dim)
         if not st.facts.lossy:
-            w = prove.witness(st, goal)
-            if w is not None:
-                return 'REFUTED', f'index {idx} can leave [-{dim}, {dim})', w
+            syms = self._goal_cone_syms(st, idx, dim)
+            # follow case symbols into their definitions
+            todo = [x for x in syms if x in st.cases]
+            seen_c = set()
+            while todo:
+                c_ = todo.pop()
+                if c_ in seen_c:
+                    continue
+                seen_c.add(c_)
+                for conds, val in st.cases[c_]:
+                    for l_ in list(conds) + [val]:
+                        extra = self._goal_cone_syms(st, l_, Lin.const(0))
+                        for x in extra:
+                            if x not in syms:
+                                syms.add(x)
+                                if x in st.cases:
+                                    todo.append(x)
+            inexact = [s_ for s_ in syms if ('#' in s_ or s_.startswith('prod[')) and s_ not in self.exact_syms and s_ not in st.cases
+                       and not s_.startswith(('fdiv[', 'min[', 'max['))]
+            if not inexact:
+                w = prove.witness(st, goal)
+                if w is not None:
+                    return 'REFUTED', f'index {idx} can leave [-{dim}, {dim})', w
         return 'UNKNOWN', f'cannot prove -{dim} <= {idx} < {dim}', None
 
     def _goal_cone_syms(self, st, idx, dim):
